@@ -772,9 +772,72 @@ func c16LiveStrictPart(t *testing.T, rep *vfReport) {
 		if lax != "served" {
 			rep.Fail("non-strict-none-read-refused-in-contact:live", fmt.Sprintf("same state, freshness %s not strict, follower in contact with the leader: got %s", (d0/4).Round(time.Millisecond), lax), replay)
 		}
+		c16SnapshotInstalledNode(t, rep, c, n0)
 		return
 	}
 	rep.Note("live strict: could not catch the follower between the two slow reads")
+}
+
+// c16SnapshotInstalledNode: a node that comes up through a snapshot install (fsmRestore) has its
+// FSM index at the snapshot index and NO entry applied one by one: the two times are unset, and
+// a strict none read within the contact bound is served (the rule speaks of the last applied
+// ENTRY). Compared with the model's Book after `bookrestore`.
+func c16SnapshotInstalledNode(t *testing.T, rep *vfReport, c *clu8Cluster, n0 *clu8Node) {
+	if !n0.S.IsLeader() {
+		return
+	}
+	// compact the leader's log so that a new node can only catch up by snapshot
+	for i := 0; i < 2; i++ {
+		if err := clu8Exec(n0.S, fmt.Sprintf("INSERT INTO c16d(v) VALUES(%d)", 100+i)); err != nil {
+			return
+		}
+		if err := n0.S.Snapshot(1); err != nil {
+			rep.Note("snapshot-installed node: snapshot declined: %v", err)
+		}
+	}
+	g, err := c.NewNode()
+	if err != nil {
+		return
+	}
+	if err := n0.S.Join(joinRequest(g.Name, g.Addr, false)); err != nil {
+		rep.Note("snapshot-installed node: join failed: %v", err)
+		return
+	}
+	deadline := time.Now().Add(60 * time.Second)
+	for g.S.fsmIdx.Load() == 0 || time.Since(g.S.raft.LastContact()) > 5*time.Second {
+		if time.Now().After(deadline) {
+			rep.Note("snapshot-installed node: did not receive a snapshot within 60 s")
+			return
+		}
+		time.Sleep(20 * time.Millisecond)
+	}
+	first, _, _ := clu8LogTypes(g.S)
+	if first <= 1 {
+		rep.Count("snapshot-installed-node:caught-up-by-log-instead")
+		return
+	}
+	idx := g.S.fsmIdx.Load()
+	app := "-"
+	if a := g.S.appendedAtTime.Load(); !a.IsZero() {
+		app = fmt.Sprint(a.UnixNano())
+	}
+	upd := "0"
+	if u := g.S.fsmUpdateTime.Load(); !u.IsZero() {
+		upd = fmt.Sprint(u.UnixNano())
+	}
+	qr := queryRequestFromString("SELECT COUNT(*) FROM c16d", false, false, false)
+	qr.Level, qr.Freshness, qr.FreshnessStrict = proto.ConsistencyLevel_NONE, int64(time.Hour), true
+	_, _, _, qerr := g.S.Query(context.Background(), qr)
+	out := "served"
+	if qerr != nil {
+		out = c16Canon(qerr)
+	}
+	rep.Count("snapshot-installed-node:strict-1h->" + out + ":appendedAt=" + map[bool]string{true: "unset", false: "set"}[app == "-"])
+	rep.Case("snapshot-installed-node|"+out, true)
+	now := time.Now().UnixNano()
+	ops := []string{"bookreset", fmt.Sprintf("bookrestore %d", idx), "book", fmt.Sprintf("bookstale %d %d %d %d true", now, now, idx+1, int64(time.Hour))}
+	impl := []string{"ok", "ok", fmt.Sprintf("%d %s %s", idx, upd, app), vfBool(out == "err:stale")}
+	rep.vfCompare("readlevel", ops, impl, nil)
 }
 
 func TestVerifC16(t *testing.T) {
